@@ -113,6 +113,9 @@ PATHS = [
     ["config", "elasticsearch.yml"],
     ["config", "jvm.options"],
     ["config", "log4j2.properties"],
+    ["config", "x-pack", "log4j2.properties"],
+    ["config", "x-pack", "jvm.options"],
+    ["log4j2.properties"],
     ["config", "certs", "k.p12"],
     ["config", "a", "b", "c", "deep.json"],
     ["config", "x.yaml"],
@@ -166,6 +169,12 @@ def random_inp(rnd):
         for p in rnd.sample(PATHS, rnd.randint(0, 5)):
             k = kind_of(p)
             tree.append({"path": list(p), "kind": k, "cid": rnd.choice(tcids if k == "text" else bcids)})
+        if rnd.random() < 0.3:
+            # the same file NAME in two (three) directories of this config base, with different template text
+            name = rnd.choice(["log4j2.properties", "jvm.options"])
+            dirs = [["config"], ["config", "x-pack"]] + ([[]] if name == "log4j2.properties" and rnd.random() < 0.5 else [])
+            cids = rnd.sample(tcids, len(dirs))
+            tree = [f for f in tree if f["path"][-1] != name] + [{"path": d + [name], "kind": "text", "cid": c} for d, c in zip(dirs, cids)]
         bases[b] = {"vars": varmap(0.25), "tree": tree}
     cars_def = {}
     for i in range(rnd.randint(1, 4)):
@@ -372,13 +381,20 @@ def run(ctx, out):
         for f in inp["shipped"]:
             if f["kind"] == "text" and f["path"][0] != "config" and tuple(f["path"]) in prov:
                 prov[tuple(f["path"])] += 1
+        samename = False
+        for b in ment:
+            by = {}
+            for f in inp["bases"][b]["tree"]:
+                if f["kind"] == "text":
+                    by.setdefault(f["path"][-1], set()).add(f["cid"])
+            samename = samename or any(len(v) > 1 for v in by.values())
         dp = "data_paths" in inp["params"] or any("data_paths" in c["vars"] for c in inp["cars"]) or any("data_paths" in inp["bases"][b]["vars"] for b in ment)
         win = None  # the data paths that win (params over later car over earlier car; those of config bases are not needed here)
         for c in inp["cars"]:
             win = c["vars"].get("data_paths", win)
         win = inp["params"].get("data_paths", win)
         sib = bool(ment) and not inp["preserve"] and win is not None and any(x.startswith("$ES") and not x.startswith("$ES/") for x in win["v"])
-        return {"nobase": not ment, "dup": n_ment != len(ment), "app": any(v > 1 for v in prov.values()), "ext": bool(ment) and dp, "pres": bool(ment) and inp["preserve"], "sib": sib}
+        return {"nobase": not ment, "dup": n_ment != len(ment), "app": any(v > 1 for v in prov.values()), "ext": bool(ment) and dp, "pres": bool(ment) and inp["preserve"], "sib": sib, "samename": samename}
 
     fs = [feats(it["inp"]) for it in items]
     for it, f in zip(items, fs):
@@ -392,9 +408,9 @@ def run(ctx, out):
     for it, f in zip(items, fs):
         out.add_case(_norm(it), nontrivial=not f["nobase"] and any(bd["tree"] for bd in it["inp"]["bases"].values()))
     n_err, n_dup, n_app, n_ext, n_pres, n_sib, n_multi, n_mdd = (sum(1 for f in fs if f[k2]) for k2 in ("nobase", "dup", "app", "ext", "pres", "sib", "multi", "multi_default_dp"))
-    n_dcol, n_dplain = (sum(1 for f in fs if f[k2]) for k2 in ("docker_collision", "docker_plain"))
-    out.extra["executions"] = {"total": len(items), "no_config_base": n_err, "config_base_mentioned_twice": n_dup, "file_appended_by_several_sources": n_app, "user_data_paths": n_ext, "data_path_sibling_named_after_es_home_wiped": n_sib, "preserve_install": n_pres, "several_nodes_from_one_car": n_multi, "several_nodes_default_data_paths": n_mdd, "docker_car_collides_with_node_variable": n_dcol, "docker_no_collision": n_dplain}
-    for name, cnt in (("appended files", n_app), ("Docker provisioning of a car that defines a node variable name", n_dcol), ("Docker provisioning without name collision", n_dplain), ("several nodes provisioned from one car", n_multi), ("several nodes from one car that defines no data_paths", n_mdd), ("data path that is a name-prefix sibling of the ES home (cleanup without preserve)", n_sib), ("duplicate base mentions", n_dup), ("external data paths", n_ext), ("preserve", n_pres), ("no-base errors", n_err)):
+    n_dcol, n_dplain, n_same = (sum(1 for f in fs if f[k2]) for k2 in ("docker_collision", "docker_plain", "samename"))
+    out.extra["executions"] = {"total": len(items), "no_config_base": n_err, "config_base_mentioned_twice": n_dup, "file_appended_by_several_sources": n_app, "user_data_paths": n_ext, "data_path_sibling_named_after_es_home_wiped": n_sib, "preserve_install": n_pres, "several_nodes_from_one_car": n_multi, "several_nodes_default_data_paths": n_mdd, "docker_car_collides_with_node_variable": n_dcol, "docker_no_collision": n_dplain, "same_file_name_in_two_directories_of_one_base": n_same}
+    for name, cnt in (("appended files", n_app), ("the same template file name in two directories of one config base", n_same), ("Docker provisioning of a car that defines a node variable name", n_dcol), ("Docker provisioning without name collision", n_dplain), ("several nodes provisioned from one car", n_multi), ("several nodes from one car that defines no data_paths", n_mdd), ("data path that is a name-prefix sibling of the ES home (cleanup without preserve)", n_sib), ("duplicate base mentions", n_dup), ("external data paths", n_ext), ("preserve", n_pres), ("no-base errors", n_err)):
         if cnt == 0:
             out.vacuous.append("no executed case with " + name)
     mid = items[len(items) // 2]
